@@ -253,6 +253,15 @@ func (e *SpecEnv) binary(n *ast.BinaryExpr) Value {
 	}
 	lv, rv := e.Eval(n.X), e.Eval(n.Y)
 	if n.Op == token.EQL || n.Op == token.NEQ {
+		if lr, ok := lv.(RefV); ok {
+			if rr, ok := rv.(RefV); ok {
+				t := Eq(lr.ID, rr.ID)
+				if n.Op == token.NEQ {
+					t = Not(t)
+				}
+				return BoolV{t}
+			}
+		}
 		if t := nilEq(lv, rv); t != nil {
 			if n.Op == token.NEQ {
 				t = Not(t)
@@ -347,7 +356,11 @@ func (e *SpecEnv) index(base Value, idx ast.Expr, n ast.Node) Value {
 			return rowOf(b, i)
 		}
 		if _, isInt := intKindOf(b.Elem); !isInt && !isBoolType(b.Elem) {
-			return e.c.elemOf(e.st, b, e.Int(idx))
+			st := e.st
+			if e.inOld && e.oldSt != nil {
+				st = e.oldSt
+			}
+			return e.c.elemOf(st, b, e.Int(idx))
 		}
 		var addr *Term
 		if e.qvar != "" {
@@ -535,6 +548,26 @@ func (e *SpecEnv) call(n *ast.CallExpr) Value {
 			e.fact(Implies(Eq(a, ConstI(int64(i))), Eq(pw, Const(pow2(i)))))
 		}
 		return IntV{pw}
+	case "bigval", "refid":
+		// bigval(x): the mathematical value of the external object x points to; refid(x): its identity
+		r, ok := e.Eval(arg(0)).(RefV)
+		if !ok {
+			panic(verr("spec: %s(%s): not a pointer to an external object", fn.Name, exprString(arg(0))))
+		}
+		if fn.Name == "refid" {
+			return IntV{r.ID}
+		}
+		st := e.st
+		if e.inOld && e.oldSt != nil {
+			st = e.oldSt
+		}
+		return IntV{e.c.refVal(st, r)}
+	case "reftop":
+		st := e.st
+		if e.inOld && e.oldSt != nil {
+			st = e.oldSt
+		}
+		return IntV{e.c.refTop(st)}
 	case "same":
 		a, b := e.slice(arg(0)), e.slice(arg(1))
 		return BoolV{Eq(a.Addr, b.Addr)}
